@@ -119,6 +119,10 @@ def aztec_selection(chk, quick, drift_cap=120):
         alpha = rng.choice([b"ABCDEFGH IJ", b"0123456789", bytes(range(128, 140)), b"\x00", b"\xff"])
         n = rng.choice([400, 700, 1000, 1500, 1900, 2400, 2800, 3000, 3100, 3500]) + rng.randrange(60)
         jobs.append(dict(content=[rng.choice(alpha) for _ in range(n)], pct=rng.choice([0, 1, 10, 23, 33])))
+    # the last change of codeword size (full-range 22 -> 23 layers, 10 -> 12 bits) with payloads that stuffing expands most: every length around it
+    for fill in (0x00, 0xFF):
+        for pct in ((23, 33) if quick else (0, 5, 10, 16, 23, 30, 33, 36)):
+            jobs += [dict(content=[fill] * n, pct=pct) for n in range(930, 1071)]
     inp = os.path.join(chk.work, "azsel-in.ndjson")
     out = os.path.join(chk.work, "azsel-out.ndjson")
     vlib.write_ndjson(inp, jobs)
